@@ -67,7 +67,7 @@ Section Message.
         | None => Err EncodingNotSupported
         | Some lay =>
             st0 <- put KU 16 window 0 n 12 ;;
-            st <- encode_frag sigt ssr59 ssr65 lay st0 v ;;
+            st <- encode_frag sigt ssr59 ssr65 cap59 cap65 lay st0 v ;;
             o <- usub (snd st) 1 ;;
             let data_len := o / 8 + 1 in
             let data1 := head ++ fst st ++ tail in
